@@ -3,24 +3,27 @@
 EXTENDS LogClient, Json
 
 \* exhaustive check: history variables do not distinguish states
-StateView == <<pending, Returned, ncalls>>
+StateView == <<config, pending, served, Returned, ncalls>>
 
 (* --- export: every completed call as one case; sequences of calls as behaviours --- *)
 \* A first call is represented by (method, verdict, how it ended, whether it was repeated); the LAST call of a
 \* behaviour is kept in full, so every (representative prefix, call) pair ends exactly one exported behaviour.
 Abstract(s) == IF s = None THEN None ELSE <<s.method, s.expect, s.end, Len(s.answers), s.result.k>>
-ExportView == <<pending, Returned, ncalls, IF ncalls >= MaxCalls THEN last ELSE Abstract(last),
+ExportView == <<config, pending, served, Returned, ncalls, IF ncalls >= MaxCalls THEN last ELSE Abstract(last),
                 IF ncalls >= MaxCalls THEN <<>> ELSE [i \in 1..Len(hist) |-> Abstract(hist[i])]>>
 
 \* quick tier: a first call is represented by (kind of method, value or error, repeated or not)
 Coarse(s) == IF s = None THEN None ELSE <<Kind(s.method), s.result.k, Len(s.answers) > 1>>
-ExportViewCoarse == <<pending, Returned, ncalls, IF ncalls >= MaxCalls THEN last ELSE Coarse(last),
+ExportViewCoarse == <<config, pending, served, Returned, ncalls, IF ncalls >= MaxCalls THEN last ELSE Coarse(last),
                       IF ncalls >= MaxCalls THEN <<>> ELSE [i \in 1..Len(hist) |-> Coarse(hist[i])]>>
 
 ExportCase == (last # None /\ ncalls = 1) => PrintT(<<"CASE", ToJson(last)>>)
 ExportBehaviour == (last # None /\ ncalls = MaxCalls) => PrintT(<<"BEH", ToJson(hist)>>)
 
+\* the key options matter to the signed endpoints: the others are exported under the two single-option configurations
+CaseBound == (pending' # None /\ Kind(pending'.method) = "data") => config \in {"der", "pem"}
+
 \* the entry-decoder cases (a pure table)
-ExportEntryCases == (ncalls = 0 /\ pending = None) =>
+ExportEntryCases == (ncalls = 0 /\ pending = None /\ config = CHOOSE c \in KeyOptions : TRUE) =>
    \A c \in EntryClasses : PrintT(<<"ECASE", ToJson([class |-> c, raw |-> EntryExpect[c].raw, parsed |-> EntryExpect[c].parsed])>>)
 =============================================================================
